@@ -23,6 +23,7 @@ type VC struct {
 	cs         *ContractSet
 	tier       string
 	orderTaint map[*ssa.Function]map[ssa.Value]bool
+	pureDecls  map[string]string
 
 	structSorts map[string]*Sort
 	structOrder []string
@@ -54,7 +55,7 @@ func LoadProgram(repo string) (*VC, error) {
 	prog.Build()
 	vc := &VC{repo: repo, prog: prog, fset: prog.Fset, pkgs: map[string]*ssa.Package{}, pkgDir: map[*ssa.Package]string{},
 		structSorts: map[string]*Sort{}, heapSorts: map[string]*Sort{}, funcsByKey: map[string]*ssa.Function{},
-		effects: map[*ssa.Function]map[string]bool{}, effVia: map[*ssa.Function]map[string]map[int]bool{}, effBusy: map[*ssa.Function]bool{}, globalInit: map[*ssa.Global]ssa.Value{}}
+		effects: map[*ssa.Function]map[string]bool{}, effVia: map[*ssa.Function]map[string]map[int]bool{}, pureDecls: map[string]string{}, effBusy: map[*ssa.Function]bool{}, globalInit: map[*ssa.Global]ssa.Value{}}
 	for i, p := range pkgs {
 		if spkgs[i] == nil {
 			continue
@@ -138,6 +139,38 @@ func (vc *VC) contractOf(fn *ssa.Function) *Contract {
 		return c
 	}
 	return nil
+}
+
+// pureApp builds the application of the uninterpreted symbol standing for
+// result idx of a pure function; the symbol is declared globally on first use.
+func (vc *VC) pureApp(fn *ssa.Function, idx int, args []Term) Term {
+	dir, _ := vc.dirOf(fn)
+	name := fmt.Sprintf("pf.%s.%s.%d", strings.ReplaceAll(dir, "/", "_"), sanitizeSym(FuncKey(fn)), idx)
+	rs := vc.sortOf(fn.Signature.Results().At(idx).Type())
+	if _, ok := vc.pureDecls[name]; !ok {
+		var as []string
+		for _, p := range fn.Params {
+			as = append(as, vc.sortOf(p.Type()).SMT())
+		}
+		vc.pureDecls[name] = fmt.Sprintf("(declare-fun %s (%s) %s)", name, strings.Join(as, " "), rs.SMT())
+	}
+	var a []string
+	for _, t := range args {
+		a = append(a, t.S)
+	}
+	if len(a) == 0 {
+		return Term{S: name, Sort: rs}
+	}
+	return Term{S: "(" + name + " " + strings.Join(a, " ") + ")", Sort: rs}
+}
+
+func sanitizeSym(s string) string {
+	return strings.Map(func(r rune) rune {
+		if r == '(' || r == ')' || r == '*' || r == '[' || r == ']' || r == ' ' || r == ',' || r == '/' {
+			return '_'
+		}
+		return r
+	}, s)
 }
 
 func isErrorType(t types.Type) bool {
